@@ -91,9 +91,10 @@ def run(ck):
         return 0 if h else 2
     r1, nm = syntax_part(ck, "tla/gen_specs.ndjson")
     ck.log("syntax: %d base specifications, %d single-token mutants" % (len(base), nm))
-    if quick:        # four gluing variants of 28 stray texts at every position: every other base specification is enough
-        vp.write_ndjson(os.path.join(ck.work, "tla", "gen_specs_lex.ndjson"), base[::2])
-    r2, ns = lexical_part(ck, "tla/gen_specs_lex.ndjson" if quick else "tla/gen_specs.ndjson")
+    # four gluing variants of 31 stray texts at every position of every base specification: every other one in the quick tier; the
+    # thorough tier has 128 base specifications and takes every third (all of them: 3.5*10^5 texts, beyond FrontEndCheck's hour)
+    vp.write_ndjson(os.path.join(ck.work, "tla", "gen_specs_lex.ndjson"), base[::2] if quick else base[::3])
+    r2, ns = lexical_part(ck, "tla/gen_specs_lex.ndjson")
     ck.log("lexical: %d texts with a stray/unterminated element" % ns)
     muts = vp.read_ndjson(os.path.join(ck.work, "tla", "mutants.ndjson"))
     for m in muts[:: max(1, len(muts) // 6)]:
